@@ -30,6 +30,7 @@ struct StageSpec {
 	Kind kind;
 	unsigned a = 0, b = 0; // dly: a = cycles; fifo: a = minDepth, b = latency request (0..3, 9 = DontCare); ext/red: a = ratio
 	unsigned win = 0, wout = 0;
+	unsigned bwin = 0, bwout = 0; // byte-enable width before / after the stage (0 = stream type has no ByteEnable)
 };
 
 struct CaseSpec {
@@ -37,6 +38,7 @@ struct CaseSpec {
 	unsigned skind;       // stream type
 	unsigned w0;          // data width at the head
 	unsigned txw;         // txid / empty width
+	unsigned bw0 = 0;     // byte-enable width at the head
 	std::vector<StageSpec> stages;
 	unsigned ncycles;
 	unsigned stallmode;
@@ -51,6 +53,10 @@ using S1 = scl::RvPacketStream<UInt>;
 using S2 = scl::RvPacketStream<UInt, scl::TxId, scl::Error>;
 using S3 = scl::RvStream<UInt, scl::Sop, scl::Empty>; // explicit Sop (ambiguous sop() if combined with Valid+Eop); strm::fifo does not accept Sop
 
+using S4 = scl::RvStream<UInt, scl::ByteEnable>;
+using S5 = scl::RvPacketStream<UInt, scl::ByteEnable, scl::TxId>;
+
+template<class S> constexpr bool hasBE = S::template has<scl::ByteEnable>();
 template<class S> constexpr bool hasEop = S::template has<scl::Eop>();
 template<class S> constexpr bool hasSop = S::template has<scl::Sop>();
 template<class S> constexpr bool hasTx = S::template has<scl::TxId>();
@@ -59,10 +65,10 @@ template<class S> constexpr bool hasEmpty = S::template has<scl::Empty>();
 
 struct Tap {
 	OutputPin v, r, e, s;
-	OutputPins d, m;
-	Tap(const Bit &v_, const Bit &r_, const Bit &e_, const Bit &s_, const UInt &d_, const UInt &m_, const std::string &n)
+	OutputPins d, m, b;
+	Tap(const Bit &v_, const Bit &r_, const Bit &e_, const Bit &s_, const UInt &d_, const UInt &m_, const UInt &b_, const std::string &n)
 		: v(pinOut(v_).setName(n + "_v")), r(pinOut(r_).setName(n + "_r")), e(pinOut(e_).setName(n + "_e")), s(pinOut(s_).setName(n + "_s")),
-		  d(pinOut(d_).setName(n + "_d")), m(pinOut(m_).setName(n + "_m")) {}
+		  d(pinOut(d_).setName(n + "_d")), m(pinOut(m_).setName(n + "_m")), b(pinOut(b_).setName(n + "_b")) {}
 };
 
 // all meta signals other than eop/sop packed into one word: {error, txid, empty} (whatever the type has), lowest first
@@ -93,7 +99,9 @@ template<class S> std::unique_ptr<Tap> makeTap(const S &s, size_t i)
 	if constexpr (hasSop<S>) sp = sop(s);
 	UInt d = *s;
 	UInt m = metaWord(s);
-	return std::make_unique<Tap>(v, r, e, sp, d, m, "tap" + std::to_string(i));
+	UInt b = ConstUInt(0, 1_b);
+	if constexpr (hasBE<S>) b = (UInt)byteEnable(s);
+	return std::make_unique<Tap>(v, r, e, sp, d, m, b, "tap" + std::to_string(i));
 }
 
 template<class S> S applyStage(S &&s, const StageSpec &sp, size_t idx, std::vector<std::optional<Bit>> &stallPins)
@@ -145,6 +153,7 @@ template<class S> void runCase(const CaseSpec &cs)
 	UInt dIn = pinIn(BitWidth(cs.w0)).setName("in_data");
 	Bit eIn, sIn, errIn;
 	UInt txIn, empIn;
+	BVec beIn;
 	S in;
 	in.data = dIn;
 	valid(in) = vIn;
@@ -153,6 +162,7 @@ template<class S> void runCase(const CaseSpec &cs)
 	if constexpr (hasTx<S>) { txIn = pinIn(BitWidth(cs.txw)).setName("in_txid"); txid(in) = txIn; }
 	if constexpr (hasErr<S>) { errIn = pinIn().setName("in_error"); error(in) = errIn; }
 	if constexpr (hasEmpty<S>) { empIn = pinIn(BitWidth(cs.txw)).setName("in_empty"); empty(in) = empIn; }
+	if constexpr (hasBE<S>) { beIn = (BVec)pinIn(BitWidth(cs.bw0)).setName("in_be"); byteEnable(in) = beIn; }
 
 	const size_t n = cs.stages.size();
 	std::vector<std::unique_ptr<Tap>> taps;
@@ -180,7 +190,7 @@ template<class S> void runCase(const CaseSpec &cs)
 	auto &circ = design.getCircuit();
 	design.postprocess();
 
-	std::cout << "case " << cs.id << " kind=" << cs.skind << " w=" << cs.w0 << " mw=" << metaWidth<S>(cs.txw) << " ncyc=" << cs.ncycles
+	std::cout << "case " << cs.id << " kind=" << cs.skind << " w=" << cs.w0 << " mw=" << metaWidth<S>(cs.txw) << " bw=" << cs.bw0 << " ncyc=" << cs.ncycles
 			  << " stallmode=" << cs.stallmode << " simseed=" << cs.simSeed << "\n";
 	std::cout << "stages " << n << "\n";
 	for (size_t i = 0; i < n; i++) {
@@ -189,8 +199,8 @@ template<class S> void runCase(const CaseSpec &cs)
 		switch (sp.kind) {
 		case DLY: std::cout << " " << sp.a; break;
 		case FIFO: std::cout << " " << nextPow2(sp.a) << " " << (sp.b == 9 ? 2u : (sp.b == 0 ? 1u : sp.b)) << " " << (sp.b == 0 ? 1 : 0) << " req=" << sp.a << "/" << sp.b; break;
-		case EXT: std::cout << " " << sp.a << " " << sp.win; break;
-		case RED: std::cout << " " << sp.a << " " << sp.wout; break;
+		case EXT: std::cout << " " << sp.a << " " << sp.win << " " << sp.bwin; break;
+		case RED: std::cout << " " << sp.a << " " << sp.wout << " " << sp.bwout; break;
 		default: break;
 		}
 		std::cout << " win=" << sp.win << " wout=" << sp.wout << "\n";
@@ -201,7 +211,7 @@ template<class S> void runCase(const CaseSpec &cs)
 
 	auto mask = [](unsigned w) -> uint64_t { return w >= 64 ? ~0ull : ((1ull << w) - 1); };
 
-	struct BeatV { uint64_t d = 0; bool e = false, s = false; uint64_t tx = 0, err = 0, emp = 0; };
+	struct BeatV { uint64_t d = 0; bool e = false, s = false; uint64_t tx = 0, err = 0, emp = 0, be = 0; };
 	auto randBeat = [&](bool &inPacket) {
 		BeatV b;
 		b.d = rng.next() & mask(cs.w0);
@@ -212,6 +222,8 @@ template<class S> void runCase(const CaseSpec &cs)
 		b.tx = rng.next() & mask(cs.txw);
 		b.err = rng.below(2);
 		b.emp = rng.next() & mask(cs.txw);
+		b.be = rng.next() & mask(cs.bw0);
+		if (rng.chance(1, 8)) b.be = mask(cs.bw0);
 		inPacket = !b.e;
 		return b;
 	};
@@ -222,6 +234,7 @@ template<class S> void runCase(const CaseSpec &cs)
 		if constexpr (hasTx<S>) simu(txIn) = b.tx;
 		if constexpr (hasErr<S>) simu(errIn) = (bool)b.err;
 		if constexpr (hasEmpty<S>) simu(empIn) = b.emp;
+		if constexpr (hasBE<S>) simu(beIn) = b.be;
 	};
 
 	auto rdBit = [&](const OutputPin &p, bool &def) { auto h = simu(p); def = h.defined(); return def ? h.value() : false; };
@@ -304,8 +317,8 @@ template<class S> void runCase(const CaseSpec &cs)
 				bool v = rdBit(taps[i]->v, dv), r = rdBit(taps[i]->r, dr), e = rdBit(taps[i]->e, de), s = rdBit(taps[i]->s, ds);
 				bv[i] = v; br[i] = r;
 				line << ' ' << (dv ? (v ? '1' : '0') : 'u') << (dr ? (r ? '1' : '0') : 'u') << ',';
-				if (v && dv) line << hexOf(taps[i]->d) << ',' << (de ? (e ? '1' : '0') : 'u') << (ds ? (s ? '1' : '0') : 'u') << ',' << hexOf(taps[i]->m);
-				else line << "-,--,-";
+				if (v && dv) line << hexOf(taps[i]->d) << ',' << (de ? (e ? '1' : '0') : 'u') << (ds ? (s ? '1' : '0') : 'u') << ',' << hexOf(taps[i]->m) << ',' << (hasBE<S> ? hexOf(taps[i]->b) : std::string("0"));
+				else line << "-,--,-,-";
 				any = any || v || !dv;
 				anyTransfer = anyTransfer || (v && r);
 				if (i == 0) b0r = r;
@@ -355,20 +368,34 @@ static CaseSpec genCase1(vh::Rng &rng, uint64_t id, unsigned ncycles, unsigned s
 {
 	CaseSpec cs;
 	cs.id = id;
-	cs.skind = (unsigned)rng.below(4);
+	cs.skind = (unsigned)rng.below(6);
 	cs.txw = (unsigned)rng.range(1, 4);
 	cs.ncycles = ncycles;
 	cs.stallmode = stallmode;
-	static const unsigned ws[] = { 1, 2, 3, 4, 5, 6, 7, 8, 9, 12, 16 };
-	cs.w0 = ws[rng.below(sizeof ws / sizeof ws[0])];
+	const bool be = cs.skind >= 4;
+	if (!be) {
+		static const unsigned ws[] = { 1, 2, 3, 4, 5, 6, 7, 8, 9, 12, 16, 24 };
+		cs.w0 = ws[rng.below(sizeof ws / sizeof ws[0])];
+	} else {
+		// ByteEnable streams: `units` enable groups of `g` payload bits and `h` enable bits each
+		// (g = 8, h = 1: one enable per byte; g = 16/32: one enable per 2/4 bytes; h = 2: finer than a byte)
+		static const unsigned us[] = { 1, 2, 3, 4, 6, 8, 12, 16, 24 }, gs[] = { 1, 2, 4, 8, 16, 32 };
+		for (;;) {
+			unsigned u = us[rng.below(9)], g = gs[rng.below(6)], h = rng.chance(1, 4) ? 2 : 1;
+			if (u * g > 60 || u * h > 60) continue;
+			cs.w0 = u * g; cs.bw0 = u * h;
+			break;
+		}
+	}
 	unsigned n = (unsigned)rng.range(1, 6);
-	unsigned w = cs.w0;
+	unsigned w = cs.w0, bw = cs.bw0;
 	for (unsigned i = 0; i < n; i++) {
 		StageSpec sp;
 		for (;;) {
 			sp = StageSpec{};
 			sp.kind = (Kind)rng.below(9);
-			sp.win = w; sp.wout = w;
+			if (be && rng.chance(1, 3)) sp.kind = rng.chance(1, 2) ? EXT : RED; // the byte-enable paths of the width changers
+			sp.win = w; sp.wout = w; sp.bwin = bw; sp.bwout = bw;
 			if (sp.kind == FIFO && cs.skind == 3) continue; // strm::fifo drops Sop (removeFlowControl) and does not compile for it
 			if (sp.kind == DLY) sp.a = (unsigned)rng.below(4);
 			if (sp.kind == FIFO) {
@@ -377,20 +404,21 @@ static CaseSpec genCase1(vh::Rng &rng, uint64_t id, unsigned ncycles, unsigned s
 				sp.b = lats[rng.below(5)];
 			}
 			if (sp.kind == EXT) {
-				sp.a = (unsigned)rng.range(1, 4);
-				if (w * sp.a > 60) continue;
-				sp.wout = w * sp.a;
+				static const unsigned rs[] = { 1, 2, 2, 3, 3, 4, 4, 8 };
+				sp.a = rs[rng.below(8)];
+				if (w * sp.a > 60 || bw * sp.a > 60) continue;
+				sp.wout = w * sp.a; sp.bwout = bw * sp.a;
 			}
 			if (sp.kind == RED) {
 				std::vector<unsigned> divs;
-				for (unsigned r = 1; r <= 4; r++) if (w % r == 0) divs.push_back(r);
+				for (unsigned r : { 1u, 2u, 3u, 4u, 6u, 8u }) if (w % r == 0 && bw % r == 0) divs.push_back(r);
 				sp.a = rng.pick(divs);
-				if (sp.a == 1 && rng.chance(2, 3) && divs.size() > 1) sp.a = divs[1];
-				sp.wout = w / sp.a;
+				if (sp.a == 1 && rng.chance(3, 4) && divs.size() > 1) sp.a = divs[1 + rng.below(divs.size() - 1)];
+				sp.wout = w / sp.a; sp.bwout = bw / sp.a;
 			}
 			break;
 		}
-		w = sp.wout;
+		w = sp.wout; bw = sp.bwout;
 		cs.stages.push_back(sp);
 	}
 	cs.simSeed = rng.next();
@@ -418,7 +446,7 @@ int main(int argc, char **argv)
 	unsigned ncycles = (unsigned)vh::argU64(argc, argv, 3, 300);
 	unsigned stallmode = (unsigned)vh::argU64(argc, argv, 4, 0);
 	uint64_t only = vh::argU64(argc, argv, 5, ~0ull);
-	// custom chain: stream kind, head width, stages (name[:a[:b]]), e.g. "0 8 dsb,red:2" (one argument or three)
+	// custom chain: stream kind, head width[/byte-enable width], stages (name[:a[:b]]), e.g. "0 8 dsb,red:2" or "4 24/3 red:3,ds"
 	std::string custom;
 	for (int i = 6; i < argc; i++) custom += std::string(i > 6 ? " " : "") + argv[i];
 	std::cout << "# prop=C16 seed=" << seed << " ncases=" << ncases << " ncycles=" << ncycles << " stallmode=" << stallmode << "\n";
@@ -430,9 +458,12 @@ int main(int argc, char **argv)
 		if (!custom.empty()) {
 			std::istringstream is(custom);
 			std::string st;
-			is >> cs.skind >> cs.w0 >> st;
+			std::string wspec;
+			is >> cs.skind >> wspec >> st;
+			cs.w0 = (unsigned)std::stoul(wspec);
+			cs.bw0 = wspec.find('/') != std::string::npos ? (unsigned)std::stoul(wspec.substr(wspec.find('/') + 1)) : (cs.skind >= 4 ? cs.w0 / 8 : 0);
 			cs.stages.clear();
-			unsigned w = cs.w0;
+			unsigned w = cs.w0, bw = cs.bw0;
 			std::istringstream ss(st);
 			for (std::string tok; std::getline(ss, tok, ',');) {
 				StageSpec sp;
@@ -445,10 +476,10 @@ int main(int argc, char **argv)
 				sp.kind = (Kind)k;
 				if (f.size() > 1) sp.a = (unsigned)std::stoul(f[1]);
 				if (f.size() > 2) sp.b = (unsigned)std::stoul(f[2]);
-				sp.win = w; sp.wout = w;
-				if (sp.kind == EXT) sp.wout = w * sp.a;
-				if (sp.kind == RED) sp.wout = w / sp.a;
-				w = sp.wout;
+				sp.win = w; sp.wout = w; sp.bwin = bw; sp.bwout = bw;
+				if (sp.kind == EXT) { sp.wout = w * sp.a; sp.bwout = bw * sp.a; }
+				if (sp.kind == RED) { sp.wout = w / sp.a; sp.bwout = bw / sp.a; }
+				w = sp.wout; bw = sp.bwout;
 				cs.stages.push_back(sp);
 			}
 		}
@@ -457,7 +488,9 @@ int main(int argc, char **argv)
 			case 0: runCase<S0>(cs); break;
 			case 1: runCase<S1>(cs); break;
 			case 2: runCase<S2>(cs); break;
-			default: runCase<S3>(cs); break;
+			case 3: runCase<S3>(cs); break;
+			case 4: runCase<S4>(cs); break;
+			default: runCase<S5>(cs); break;
 			}
 		} catch (const std::exception &e) {
 			std::cout << "case " << id << " exception\n" << "err " << e.what() << "\nend\n";
